@@ -533,6 +533,9 @@ pub struct History {
 
 pub fn run_history(t: &LspTrace) -> History {
     lay_out_ws(t);
+    // a clean machine at the start of the history; the temporary directory then survives every
+    // simulated crash, like the disk
+    crate::seam::reset_sim_tmp();
     let seed = |i: usize| t.hash_seeds.get(i % t.hash_seeds.len().max(1)).copied().unwrap_or(1);
     // The history is cut at every simulated crash. Each server incarnation lives in a forked child
     // of its own (a restarted server is a new process: nothing but the disk and the editor's belief
@@ -777,6 +780,7 @@ fn oracle_c12(t: &LspTrace, h: &History, stats: &mut Stats) -> Vec<Violation> {
 /// test may keep is shared neither with the server of the history nor between reference servers —
 /// exactly as for a really restarted server.
 fn fresh_server_publish(t: &LspTrace, model: &Model, uri: &str, version: i32, seed: u64, shuffle: bool) -> Result<Value, String> {
+    crate::seam::reset_sim_tmp(); // a freshly started server on a clean machine
     match crate::seam::run_forked(|| fresh_server_publish_in_this_process(t, model, uri, version, seed, shuffle)) {
         Ok(r) => r,
         Err(why) => Err(format!("fresh server process died: {why}")),
@@ -861,6 +865,7 @@ fn check_on_contents(t: &LspTrace, model: &Model, seed: u64) -> Result<(bool, Ve
         std::fs::write(chk.join(name), text).map_err(|e| e.to_string())?;
     }
     let args = vec![chk.clone()];
+    crate::seam::reset_sim_tmp();
     // like every simulated command-line process: a forked child, entry point on a fresh thread
     let forked: Result<Result<(bool, Vec<DiagRec>, Vec<String>), String>, String> = crate::seam::run_forked(move || {
         let hooks = SimHooks::new(root(), mix(&[seed, 78]), vec![]);
@@ -1372,6 +1377,7 @@ fn ends_in_invalid_blank(text: &str) -> bool {
 }
 
 fn fresh_server_tokens(uri: &str, text: &str, seed: u64) -> Result<Value, String> {
+    crate::seam::reset_sim_tmp();
     match crate::seam::run_forked(|| fresh_server_tokens_in_this_process(uri, text, seed)) {
         Ok(r) => r,
         Err(why) => Err(format!("fresh server process died: {why}")),
